@@ -463,6 +463,9 @@ for b in (1, 2, 5, 6, 7):
 for size in (5, 8):
     for b in (0, 3, 4, 5):
         c20_cases.append(case("mirror of %d entries, broken=%d" % (size, b), "VerifC20Witness", [1, size, b], ["healthy"] if b == 0 else ["unhealthy"], T))
+for size, bs in ((16, (0, 3, 4, 5)), (64, (0, 3)), (255, (0, 4, 5)), (256, (0, 3, 4, 5, 6, 7)), (257, (0, 3, 4, 5)), (513, (0, 3, 4))):
+    for b in bs:
+        c20_cases.append(case("mirror of %d entries, broken=%d" % (size, b), "VerifC20Witness", [1, size, b], ["healthy"] if b == 0 else ["unhealthy"], T))
 c20_cases.append(case("/health aggregation over a regular and a staging log", "VerifC20Health", [0], ["green", "red"], Q))
 c19_cases = []
 for kind, groups, partial in [(0, 1, 0), (0, 1, 1), (1, 1, 0), (1, 1, 1), (2, 1, 0), (2, 1, 1), (3, 1, 0), (3, 1, 1), (1, 2, 0)]:
@@ -482,7 +485,7 @@ CHECKS["C20"] = {
     "jobs": [dict(SKYLIGHT, harness=["cmd_skylight/zz_verif_c20.go", "cmd_skylight/zz_verif_c19.go"], native=False, cases=c20_cases)],
     "bounds": {"quick": "checkLog: signing key right/wrong, origin right/wrong, final tree absent / matching / wrong hash / wrong size / wrong timestamp, time past the NotAfter limit and checkpoint age fully symbolic (64-bit durations); "
                         "witness directories and mirrors of 1-4 entries with one condition broken at a time (unpublished key, wrong directory name, one arbitrary byte of the right-edge tile at any position, missing tile, mirror ahead of pending, pending not signed by the witness, pending of another origin)",
-               "thorough": "mirrors of 5 and 8 entries"},
+               "thorough": "mirrors of 5, 8, 16, 64, 255, 256, 257 and 513 entries (level-1 tiles; the tampered byte ranges over every byte of any right-edge tile)"},
     "assumptions": [IDEAL_HASH, "ideal ECDSA / ML-DSA signatures", "in-memory fs.FS behind os.Root.FS; JSON metadata, x509.ParsePKIXPublicKey, time.Parse and vkey parsing are contracts; note.Open, torchwood (ParseCheckpoint, TileFS, TileHashReader, RightEdge) and tlog are executed from their real source",
                     "the /health handler closure of main is located by its route pattern and executed with its captured variables bound by the engine (two logs, one of them staging); its loop over witness checks is exercised only with no witness configured"],
 }
